@@ -345,6 +345,14 @@ func (ts *treeSpec) classifyWrong(w, e int, path string) (int, string) {
 	if sc := ts.shadowClass(e, path); sc != "" {
 		return 70, "shadowed-by-" + sc
 	}
+	if e > 0 && ts.Apps[e].Full != strings.ToLower(ts.Apps[e].Full) {
+		// the expected app's prefix contains upper-case letters and the path spells it as
+		// mounted (e is the literal-reading expectation)
+		if w > 0 {
+			return 88, "outer-container-over-mixed-case-prefix"
+		}
+		return 89, "root-over-mixed-case-prefix"
+	}
 	if w > 0 {
 		return 90, "outer-container-over-deeper-prefix"
 	}
@@ -707,6 +715,11 @@ func (rn *runner) judgeTree(c *ev.Case, ts *treeSpec, reqs []reqSpec) map[string
 				e.Nontrivial(ts.describe(), rq.Method, rq.Path, strconv.Itoa(rq.Plan.Pos), strconv.Itoa(rq.Plan.App))
 				e.Stat("nontrivial_requests", 1)
 			}
+			if el := ts.expected(rq.Path, false); el > 0 && ts.Apps[el].Full != strings.ToLower(ts.Apps[el].Full) {
+				// the rule selects an app mounted under a prefix with upper-case letters and
+				// the request spells that prefix exactly as mounted
+				e.Stat("errors_under_mixed_case_prefix_spelled_as_mounted", 1)
+			}
 			if rq.Path != strings.ToLower(rq.Path) && !ts.CaseSensitive &&
 				ts.expected(rq.Path, true) != ts.expected(rq.Path, false) {
 				e.Stat("case_variant_two_readings", 1)
@@ -759,6 +772,9 @@ func run(e *ev.Env) {
 		e.Stat("trees", 1)
 		if ts.CustomCtx {
 			e.Stat("trees_custom_ctx", 1)
+		}
+		if ts.MixedCase {
+			e.Stat("trees_mixed_case_prefixes", 1)
 		}
 		e.StatMax("max_apps", int64(len(ts.Apps)-1))
 		rn.trees++
@@ -878,6 +894,37 @@ func corpus(e *ev.Env, rn *runner) {
 		ts := mkTree(hOK, appSpec{Parent: 0, Rel: "/api", Handler: hOK}, appSpec{Parent: 1, Rel: "/v", Handler: hNone})
 		rn.judgeTree(c, ts, []reqSpec{get("/api/vx/zz", none)})
 	})
+	// mount prefixes with upper-case letters, direct and composed through a group and nesting;
+	// the requests spell the prefix exactly as mounted, so both readings of "contains" agree.
+	// Once with the default case-insensitive routing, once with CaseSensitive.
+	for _, cs := range []bool{false, true} {
+		name := "mixed-case-mount-prefix"
+		if cs {
+			name += "-case-sensitive"
+		}
+		e.Corpus(name, func(c *ev.Case) {
+			ts := mkTree(hOK,
+				appSpec{Parent: 0, Rel: "/Admin", Handler: hOK, Mw: true},
+				appSpec{Parent: 0, Rel: "/api/backoffice", Handler: hOK, ViaGroup: true},
+				appSpec{Parent: 2, Rel: "/Reports", Handler: hOK},
+				appSpec{Parent: 0, Rel: "/api/V2", Handler: hFailPlain},
+				appSpec{Parent: 0, Rel: "/WEB", Handler: hNone},
+				appSpec{Parent: 5, Rel: "/x", Handler: hOK})
+			ts.CaseSensitive = cs
+			ts.MixedCase = true
+			reqs := []reqSpec{
+				get("/Admin/e", teapot(1, posEp)), get("/Admin/zz", none), get("/Admin/p", none), get("/Admin/e", teapot(1, posMwPost)),
+				get("/api/backoffice/Reports/e", teapot(3, posEp)), get("/api/backoffice/Reports/zz", none),
+				get("/api/backoffice/e", teapot(2, posEp)),
+				get("/api/V2/e", teapot(4, posEp)), get("/api/V2/zz", none),
+				get("/WEB/x/e", teapot(6, posEp)), get("/WEB/e", teapot(5, posEp)), get("/WEB/x/zz", teapot(0, posMwPre)),
+				// differently cased requests: both readings accepted when routing is
+				// case-insensitive, plainly outside the mount when it is case-sensitive
+				get("/admin/e", teapot(1, posEp)), get("/API/v2/zz", none),
+			}
+			rn.judgeTree(c, ts, reqs)
+		})
+	}
 	// control: disjoint prefixes, nested mounts, every position, every handler mode
 	e.Corpus("control-disjoint", func(c *ev.Case) {
 		ts := mkTree(hOK,
